@@ -4,6 +4,7 @@ package main
 
 import (
 	"fmt"
+	"go/ast"
 	"go/constant"
 	"go/token"
 	"go/types"
@@ -72,30 +73,33 @@ type closInfo struct {
 }
 
 type Unit struct {
-	eng       *Engine
-	root      *ssa.Function
-	spec      *FuncSpec
-	reg       *Registry
-	body      []string
-	obls      []*Obligation
-	nfresh    int
-	notes     map[string]bool // abstractions / models used
-	heapSort  map[string]string
-	nextEpoch int
-	oblCount  map[string]int
-	discovery bool
-	pure      int
-	pureFail  bool
-	loopWrites map[string]map[string]bool // fn name + block index -> heap names written in loop
-	sinks     []map[string]bool
+	eng         *Engine
+	root        *ssa.Function
+	spec        *FuncSpec
+	reg         *Registry
+	body        []string
+	obls        []*Obligation
+	nfresh      int
+	notes       map[string]bool // abstractions / models used
+	heapSort    map[string]string
+	heapInfo    map[string]heapInfo
+	nextEpoch   int
+	oblCount    map[string]int
+	discovery   bool
+	pure        int
+	allowedMods map[string][]string
+	allowedAll  bool
+	pureFail    bool
+	loopWrites  map[string]map[string]bool // fn name + block index -> heap names written in loop
+	sinks       []map[string]bool
 	inlineStack []*ssa.Function
-	entry     *State
-	rootFrame *Frame
-	classes   map[string]bool
-	allocEntry string
-	sweepOnly bool
-	failed    string // set when the unit cannot be analysed
-	insts     int
+	entry       *State
+	rootFrame   *Frame
+	classes     map[string]bool
+	allocEntry  string
+	sweepOnly   bool
+	failed      string // set when the unit cannot be analysed
+	insts       int
 }
 
 type retInfo struct {
@@ -105,25 +109,25 @@ type retInfo struct {
 }
 
 type Frame struct {
-	u       *Unit
-	fn      *ssa.Function
-	parent  *Frame
-	vals    map[ssa.Value]Val
-	addrs   map[ssa.Value]*Addr
-	tuples  map[ssa.Value][]Val
-	clos    map[ssa.Value]*closInfo
-	out     map[int]*State
-	edgeC   map[[2]int]string
-	rets    []retInfo
-	defers  []*ssa.Defer
-	tag     string
-	depth   int
-	curBlk  *ssa.BasicBlock
-	loopEnv map[int]map[string]Val // header index -> name env used for invariants
-	ordinals map[int]int           // header block index -> loop ordinal
-	iters   map[ssa.Value]*iterInfo
-	spec    *FuncSpec
-	params  []Val
+	u        *Unit
+	fn       *ssa.Function
+	parent   *Frame
+	vals     map[ssa.Value]Val
+	addrs    map[ssa.Value]*Addr
+	tuples   map[ssa.Value][]Val
+	clos     map[ssa.Value]*closInfo
+	out      map[int]*State
+	edgeC    map[[2]int]string
+	rets     []retInfo
+	defers   []*ssa.Defer
+	tag      string
+	depth    int
+	curBlk   *ssa.BasicBlock
+	loopEnv  map[int]map[string]Val // header index -> name env used for invariants
+	ordinals map[int]int            // header block index -> loop ordinal
+	iters    map[ssa.Value]*iterInfo
+	spec     *FuncSpec
+	params   []Val
 }
 
 type iterInfo struct {
@@ -245,7 +249,14 @@ func (u *Unit) hget(st *State, name, srt string) string {
 		u.heapSort[name] = srt
 	}
 	c := fmt.Sprintf("%s@%d", name, st.epoch)
-	u.reg.declConst(c, srt)
+	if _, seen := u.reg.consts[c]; !seen {
+		u.reg.declConst(c, srt)
+		if name != "$alloc" {
+			a := fmt.Sprintf("$alloc@%d", st.epoch)
+			u.reg.declConst(a, sInt)
+			u.wfHeap(name, c, a)
+		}
+	}
 	st.heap[name] = c
 	return c
 }
@@ -270,8 +281,8 @@ func (u *Unit) havocAll(st *State, why string) {
 	oldAlloc := u.hget(st, "$alloc", sInt)
 	nh := map[string]string{}
 	for k, v := range st.heap {
-		if isLocalName(k) {
-			nh[k] = v
+		if isLocalName(k) || k == "$lock" || k == "$now" {
+			nh[k] = v // locals, the lockset of this goroutine and the ghost clock survive unknown calls (callees are lock-balanced: checked per function)
 		}
 	}
 	u.nextEpoch++
@@ -293,7 +304,9 @@ func (u *Unit) havocName(st *State, name string) {
 		u.assume(st, sx(">=", n, old))
 		return
 	}
-	u.hset(st, name, srt, u.fresh(name, srt))
+	c := u.fresh(name, srt)
+	u.hset(st, name, srt, c)
+	u.wfHeap(name, c, u.hget(st, "$alloc", sInt))
 }
 
 // alloc returns a fresh reference.
@@ -339,7 +352,7 @@ func (u *Unit) zero(t types.Type) string {
 		}
 		return sx(si.ctor, a...)
 	case *types.Array:
-		return fmt.Sprintf("((as const %s) %s)", u.sortOf(t), u.zero(tt.Elem()))
+		return u.constArray(sInt, u.sortOf(tt.Elem()), u.zero(tt.Elem()))
 	}
 	if u.sortOf(t) == sAny {
 		return "A_nil"
@@ -518,7 +531,7 @@ func (fr *Frame) addrOf(st *State, v ssa.Value) *Addr {
 	pt, ok := p.Ty.Underlying().(*types.Pointer)
 	if !ok {
 		u.note("dereference of non-pointer typed value")
-		return &Addr{heap: "Cell_" + sAny, hsort: "(Array Int Any)", idx: []string{p.T}, rootTy: types.NewInterfaceType(nil, nil), ty: types.NewInterfaceType(nil, nil)}
+		return &Addr{heap: u.cellHeapName(types.NewInterfaceType(nil, nil)), hsort: "(Array Int Any)", idx: []string{p.T}, rootTy: types.NewInterfaceType(nil, nil), ty: types.NewInterfaceType(nil, nil)}
 	}
 	return fr.addrOfRef(p.T, pt.Elem())
 }
@@ -533,14 +546,18 @@ func (fr *Frame) addrOfRef(ref string, et types.Type) *Addr {
 		return &Addr{base: ref, ty: et}
 	}
 	srt := u.sortOf(et)
-	return &Addr{heap: "Cell_" + sortTag(srt), hsort: "(Array Int " + srt + ")", idx: []string{ref}, rootTy: et, ty: et}
+	return &Addr{heap: u.cellHeapName(et), hsort: "(Array Int " + srt + ")", idx: []string{ref}, rootTy: et, ty: et}
 }
 
 func fieldHeap(u *Unit, structTy types.Type, i int) (string, string, types.Type) {
 	srt := u.reg.structSort(structTy)
 	si := u.reg.structs[srt]
 	ft := si.st.Field(i).Type()
-	return "F_" + strings.TrimPrefix(srt, "S_") + "_" + sanitize(si.fields[i]), "(Array Int " + u.sortOf(ft) + ")", ft
+	n := "F_" + strings.TrimPrefix(srt, "S_") + "_" + sanitize(si.fields[i])
+	if _, ok := u.heapInfo[n]; !ok {
+		u.heapInfo[n] = heapInfo{levels: 1, elemTy: ft}
+	}
+	return n, "(Array Int " + u.sortOf(ft) + ")", ft
 }
 
 func (u *Unit) readHeapAt(st *State, a *Addr) string {
@@ -586,7 +603,7 @@ func (fr *Frame) load(st *State, a *Addr) Val {
 		}
 		at := a.ty.Underlying().(*types.Array)
 		es := u.sortOf(at.Elem())
-		return Val{sel(u.hget(st, "E_"+sortTag(es), "(Array Int (Array Int "+es+"))"), a.base), a.ty, ""}
+		return Val{sel(u.hget(st, u.elemHeapName(at.Elem()), "(Array Int (Array Int "+es+"))"), a.base), a.ty, ""}
 	}
 	t := u.readHeapAt(st, a)
 	ty := a.rootTy
@@ -627,7 +644,7 @@ func (fr *Frame) storeTo(st *State, a *Addr, v Val) {
 		}
 		at := a.ty.Underlying().(*types.Array)
 		es := u.sortOf(at.Elem())
-		hn, hs := "E_"+sortTag(es), "(Array Int (Array Int "+es+"))"
+		hn, hs := u.elemHeapName(at.Elem()), "(Array Int (Array Int "+es+"))"
 		u.hset(st, hn, hs, store(u.hget(st, hn, hs), a.base, v.T))
 		return
 	}
@@ -920,6 +937,85 @@ func (fr *Frame) headerEnv(b *ssa.BasicBlock, phiVals map[*ssa.Phi]Val) map[stri
 	return env
 }
 
+// localAt resolves a source-level local variable name to its value at loop header b: a header phi (by name), else a value
+// defined outside the loop that a DebugRef inside the loop (or in a dominating block) binds to that name.
+func (fr *Frame) localAt(b *ssa.BasicBlock, li *loopInfo) func(string, *State) (Val, bool) {
+	return func(name string, st *State) (Val, bool) {
+		var best ssa.Value
+		var bestAddr bool
+		bestRank := -1
+		for _, blk := range fr.fn.Blocks {
+			inLoop := li.blocks[blk.Index]
+			if !inLoop && !blk.Dominates(b) {
+				continue
+			}
+			for ii, in := range blk.Instrs {
+				dr, ok := in.(*ssa.DebugRef)
+				if !ok {
+					continue
+				}
+				id, ok := dr.Expr.(*ast.Ident)
+				if !ok || id.Name != name {
+					continue
+				}
+				// the bound value must be defined outside the loop (loop-invariant) unless it is an address
+				if vi, isInstr := dr.X.(ssa.Instruction); isInstr && !dr.IsAddr {
+					if vb := vi.Block(); vb != nil && li.blocks[vb.Index] {
+						continue
+					}
+				}
+				rank := 0
+				if inLoop {
+					rank = 1 << 20
+				} else {
+					// deeper dominators are later in dominance: approximate by dominator depth via index order
+					d := 0
+					for x := blk; x != nil; x = x.Idom() {
+						d++
+					}
+					rank = d*1000 + ii
+				}
+				if rank > bestRank {
+					bestRank, best, bestAddr = rank, dr.X, dr.IsAddr
+				}
+			}
+		}
+		if best == nil {
+			return Val{}, false
+		}
+		if bestAddr {
+			return fr.load(st, fr.addrOf(st, best)), true
+		}
+		return fr.val(st, best), true
+	}
+}
+
+// loopFrameNames: heap variables written in a loop of the root function for which the modifies clause yields a frame invariant.
+func (fr *Frame) loopFrameNames(ws map[string]bool) []string {
+	u := fr.u
+	if fr.parent != nil || u.spec == nil || !u.spec.HasMod || u.discovery || ws["*"] {
+		return nil
+	}
+	var out []string
+	for k := range ws {
+		if !isLocalName(k) && k != "$alloc" && k != "$lock" && k != "$now" {
+			out = append(out, k)
+		}
+	}
+	sort.Strings(out)
+	return out
+}
+
+// loopIter returns the map iterator advanced in loop header b, if any.
+func (fr *Frame) loopIter(b *ssa.BasicBlock) *iterInfo {
+	for _, in := range b.Instrs {
+		if nx, ok := in.(*ssa.Next); ok {
+			return fr.iters[nx.Iter]
+		}
+	}
+	return nil
+}
+
 func (fr *Frame) enterLoop(b *ssa.BasicBlock, li *loopInfo, st *State, ins []*State, conds []string, predIdx []int) {
 	u := fr.u
 	var phis []*ssa.Phi
@@ -949,7 +1045,7 @@ func (fr *Frame) enterLoop(b *ssa.BasicBlock, li *loopInfo, st *State, ins []*St
 	if len(invs) > 0 && !u.discovery {
 		env := fr.headerEnv(b, entryVals)
 		for _, cl := range invs {
-			t, err := u.specBool(cl.Expr, &specCtx{fr: fr, cur: st, old: u.entry, env: env})
+			t, err := u.specBool(cl.Expr, &specCtx{fr: fr, cur: st, old: u.entry, env: env, local: fr.localAt(b, li), iter: fr.loopIter(b)})
 			if err != nil {
 				u.failed = fmt.Sprintf("%s:%d: %v", cl.File, cl.Line, err)
 				return
@@ -960,6 +1056,19 @@ func (fr *Frame) enterLoop(b *ssa.BasicBlock, li *loopInfo, st *State, ins []*St
 	// havoc
 	key := fmt.Sprintf("%s#%d", u.eng.funcKey(fr.fn), li.header)
 	ws := u.loopWrites[key]
+	frameNames := fr.loopFrameNames(ws)
+	var allowed map[string][]string
+	if len(frameNames) > 0 {
+		var ok bool
+		if allowed, ok = u.modAllowed(fr); !ok {
+			frameNames = nil
+		}
+	}
+	for _, k := range frameNames {
+		if phi := u.frameFormula(st, k, allowed); phi != "" {
+			u.check(fr, st, "frame", fmt.Sprintf("loop%d.entry.%s", ord, k), phi, "only locations named in modifies changed before the loop: "+k, b.Instrs[0].Pos(), u.spec.Props)
+		}
+	}
 	if ws["*"] {
 		u.havocAll(st, "loop body of "+fr.fn.Name()+" calls code with unknown effects")
 	} else {
@@ -980,10 +1089,22 @@ func (fr *Frame) enterLoop(b *ssa.BasicBlock, li *loopInfo, st *State, ins []*St
 		// automatic monotonicity invariant: phi = phi + c on every back edge
 		fr.autoInv(st, b, li, phi, entryVals[phi], v)
 	}
+	for _, k := range frameNames {
+		if phi := u.frameFormula(st, k, allowed); phi != "" {
+			u.assume(st, phi)
+		}
+	}
+	if it := fr.loopIter(b); it != nil && !it.isStr && !u.discovery {
+		sn, ok := st.heap[it.seen]
+		if !ok {
+			sn = u.hget(st, it.seen, u.heapSort[it.seen])
+		}
+		u.assume(st, fmt.Sprintf("(forall ((kk %s)) (=> (select %s kk) (select %s kk)))", it.kSort, sn, it.dom0))
+	}
 	if len(invs) > 0 && !u.discovery {
 		env := fr.headerEnv(b, hv)
 		for _, cl := range invs {
-			t, err := u.specBool(cl.Expr, &specCtx{fr: fr, cur: st, old: u.entry, env: env})
+			t, err := u.specBool(cl.Expr, &specCtx{fr: fr, cur: st, old: u.entry, env: env, local: fr.localAt(b, li), iter: fr.loopIter(b)})
 			if err != nil {
 				u.failed = fmt.Sprintf("%s:%d: %v", cl.File, cl.Line, err)
 				return
@@ -1044,7 +1165,21 @@ func clauseKey(cl *Clause) string {
 func (fr *Frame) backEdge(p, h *ssa.BasicBlock, st *State, cond string) {
 	u := fr.u
 	invs := fr.loopInvariants(h)
-	if len(invs) == 0 || u.discovery {
+	if u.discovery {
+		return
+	}
+	if fn := fr.loopFrameNames(u.loopWrites[fmt.Sprintf("%s#%d", u.eng.funcKey(fr.fn), h.Index)]); len(fn) > 0 {
+		if allowed, ok := u.modAllowed(fr); ok {
+			s3 := st.clone()
+			s3.pc = and(st.pc, cond)
+			for _, k := range fn {
+				if phi := u.frameFormula(s3, k, allowed); phi != "" {
+					u.check(fr, s3, "frame", fmt.Sprintf("loop%d.%s", fr.ordinals[h.Index], k), phi, "loop body changes only locations named in modifies: "+k, p.Instrs[len(p.Instrs)-1].Pos(), u.spec.Props)
+				}
+			}
+		}
+	}
+	if len(invs) == 0 {
 		return
 	}
 	pi := -1
@@ -1066,7 +1201,7 @@ func (fr *Frame) backEdge(p, h *ssa.BasicBlock, st *State, cond string) {
 	env := fr.headerEnv(h, pv)
 	ord := fr.ordinals[h.Index]
 	for _, cl := range invs {
-		t, err := u.specBool(cl.Expr, &specCtx{fr: fr, cur: s2, old: u.entry, env: env})
+		t, err := u.specBool(cl.Expr, &specCtx{fr: fr, cur: s2, old: u.entry, env: env, local: fr.localAt(h, findLoops(fr.fn)[h.Index]), iter: fr.loopIter(h)})
 		if err != nil {
 			u.failed = fmt.Sprintf("%s:%d: %v", cl.File, cl.Line, err)
 			return
@@ -1131,6 +1266,18 @@ func (fr *Frame) execInstr(st *State, in ssa.Instruction) {
 	case *ssa.DebugRef:
 	case *ssa.Alloc:
 		et := x.Type().(*types.Pointer).Elem()
+		if _, isArr := et.Underlying().(*types.Array); !isArr && !x.Heap && privateAlloc(x) {
+			// a frame-local variable whose address never escapes: its own variable, untouched by callees
+			name := fmt.Sprintf("%%loc_%s_%s", fr.tag, x.Name())
+			srt := u.sortOf(et)
+			u.heapSort[name] = srt
+			st.heap[name] = u.zero(et)
+			for _, s := range u.sinks {
+				s[name] = true
+			}
+			fr.addrs[x] = &Addr{heap: name, hsort: srt, rootTy: et, ty: et}
+			break
+		}
 		r := u.alloc(st)
 		fr.vals[x] = Val{r, x.Type(), ""}
 		a := fr.addrOfRef(r, et)
@@ -1159,14 +1306,14 @@ func (fr *Frame) execInstr(st *State, in ssa.Instruction) {
 			s := fr.val(st, x.X)
 			fr.boundsCheck(st, idx, sx("s_len", s.T), x, "index out of range")
 			es := u.sortOf(t.Elem())
-			fr.addrs[x] = &Addr{heap: "E_" + sortTag(es), hsort: "(Array Int (Array Int " + es + "))", idx: []string{sx("s_arr", s.T), sx("+", sx("s_off", s.T), idx)}, rootTy: t.Elem(), ty: t.Elem()}
+			fr.addrs[x] = &Addr{heap: u.elemHeapName(t.Elem()), hsort: "(Array Int (Array Int " + es + "))", idx: []string{sx("s_arr", s.T), u.sidx(s.T, idx)}, rootTy: t.Elem(), ty: t.Elem()}
 		case *types.Pointer:
 			at := t.Elem().Underlying().(*types.Array)
 			base := fr.addrOf(st, x.X)
 			fr.boundsCheck(st, idx, fmt.Sprint(at.Len()), x, "array index out of range")
 			es := u.sortOf(at.Elem())
 			if base.heap == "" {
-				fr.addrs[x] = &Addr{heap: "E_" + sortTag(es), hsort: "(Array Int (Array Int " + es + "))", idx: []string{base.base, idx}, rootTy: at.Elem(), ty: at.Elem()}
+				fr.addrs[x] = &Addr{heap: u.elemHeapName(at.Elem()), hsort: "(Array Int (Array Int " + es + "))", idx: []string{base.base, idx}, rootTy: at.Elem(), ty: at.Elem()}
 			} else {
 				u.note("array nested in a struct: element address abstracted")
 				r := u.fresh("arrelem", sInt)
@@ -1240,8 +1387,8 @@ func (fr *Frame) execInstr(st *State, in ssa.Instruction) {
 		et := x.Type().Underlying().(*types.Slice).Elem()
 		es := u.sortOf(et)
 		arr := u.alloc(st)
-		hn, hs := "E_"+sortTag(es), "(Array Int (Array Int "+es+"))"
-		u.hset(st, hn, hs, store(u.hget(st, hn, hs), arr, fmt.Sprintf("((as const (Array Int %s)) %s)", es, u.zero(et))))
+		hn, hs := u.elemHeapName(et), "(Array Int (Array Int "+es+"))"
+		u.hset(st, hn, hs, store(u.hget(st, hn, hs), arr, u.constArray(sInt, es, u.zero(et))))
 		fr.set(x, sx("mkslice", arr, "0", n, c))
 	case *ssa.MakeMap:
 		mt := x.Type().Underlying().(*types.Map)
@@ -1249,7 +1396,7 @@ func (fr *Frame) execInstr(st *State, in ssa.Instruction) {
 		dn, ds, vn, vs, cn := u.mapHeaps(mt)
 		ks := u.sortOf(mt.Key())
 		u.hset(st, dn, ds, store(u.hget(st, dn, ds), r, fmt.Sprintf("((as const (Array %s Bool)) false)", ks)))
-		u.hset(st, vn, vs, store(u.hget(st, vn, vs), r, fmt.Sprintf("((as const (Array %s %s)) %s)", ks, u.sortOf(mt.Elem()), u.zero(mt.Elem()))))
+		u.hset(st, vn, vs, store(u.hget(st, vn, vs), r, u.constArray(ks, u.sortOf(mt.Elem()), u.zero(mt.Elem()))))
 		u.hset(st, cn, "(Array Int Int)", store(u.hget(st, cn, "(Array Int Int)"), r, "0"))
 		fr.vals[x] = Val{r, x.Type(), ""}
 	case *ssa.MakeChan:
@@ -1369,8 +1516,80 @@ func (fr *Frame) boundsCheck(st *State, idx, n string, in ssa.Instruction, desc 
 
 func (u *Unit) mapHeaps(mt *types.Map) (dn, ds, vn, vs, cn string) {
 	ks, vs0 := u.sortOf(mt.Key()), u.sortOf(mt.Elem())
-	tag := sortTag(ks) + "_" + sortTag(vs0)
-	return "Mdom_" + tag, fmt.Sprintf("(Array Int (Array %s Bool))", ks), "Mval_" + tag, fmt.Sprintf("(Array Int (Array %s %s))", ks, vs0), "Mcard_" + tag
+	tag := u.heapTag(mt.Key()) + "_" + u.heapTag(mt.Elem())
+	vn = "Mval_" + tag
+	if _, ok := u.heapInfo[vn]; !ok {
+		u.heapInfo[vn] = heapInfo{levels: 2, keySort: ks, elemTy: mt.Elem()}
+	}
+	return "Mdom_" + tag, fmt.Sprintf("(Array Int (Array %s Bool))", ks), vn, fmt.Sprintf("(Array Int (Array %s %s))", ks, vs0), "Mcard_" + tag
+}
+
+type heapInfo struct {
+	levels  int
+	keySort string
+	elemTy  types.Type
+}
+
+func (u *Unit) heapTag(t types.Type) string {
+	if isPointerLike(t) {
+		return "Ref"
+	}
+	return sortTag(u.sortOf(t))
+}
+
+func (u *Unit) elemHeapName(et types.Type) string {
+	n := "E_" + u.heapTag(et)
+	if _, ok := u.heapInfo[n]; !ok {
+		u.heapInfo[n] = heapInfo{levels: 2, keySort: sInt, elemTy: et}
+	}
+	return n
+}
+
+func (u *Unit) cellHeapName(et types.Type) string {
+	n := "Cell_" + u.heapTag(et)
+	if _, ok := u.heapInfo[n]; !ok {
+		u.heapInfo[n] = heapInfo{levels: 1, elemTy: et}
+	}
+	return n
+}
+
+// wfVal: well-formedness of a stored value of type t with respect to allocation frontier a.
+func (u *Unit) wfVal(v string, t types.Type, a string) string {
+	if t == nil || isTimeType(t) {
+		return "true"
+	}
+	switch t.Underlying().(type) {
+	case *types.Pointer, *types.Map, *types.Chan:
+		return and(sx("<=", "0", v), sx("<", v, a))
+	case *types.Slice:
+		return and(sx("<=", "0", sx("s_arr", v)), sx("<", sx("s_arr", v), a), sx("<=", "0", sx("s_off", v)), sx("<=", "0", sx("s_len", v)),
+			sx("<=", sx("s_len", v), sx("s_cap", v)), implies(eq(sx("s_arr", v), "0"), eq(sx("s_cap", v), "0")))
+	case *types.Interface:
+		return and(implies(sx("(_ is A_ref)", v), and(sx("<=", "0", sx("a_ref", v)), sx("<", sx("a_ref", v), a))),
+			implies(sx("(_ is A_slice)", v), and(sx("<=", "0", sx("s_arr", sx("a_slice", v))), sx("<", sx("s_arr", sx("a_slice", v)), a),
+				sx("<=", "0", sx("s_off", sx("a_slice", v))), sx("<=", "0", sx("s_len", sx("a_slice", v))), sx("<=", sx("s_len", sx("a_slice", v)), sx("s_cap", sx("a_slice", v))))))
+	}
+	return "true"
+}
+
+// wfHeap emits the axiom that every value stored in heap constant c (named name) is well formed w.r.t. frontier a.
+func (u *Unit) wfHeap(name, c, a string) {
+	hi, ok := u.heapInfo[name]
+	if !ok || u.discovery {
+		return
+	}
+	switch hi.levels {
+	case 0:
+		u.assumeGlobal(u.wfVal(c, hi.elemTy, a))
+	case 1:
+		if w := u.wfVal("(select "+c+" r)", hi.elemTy, a); w != "true" {
+			u.assumeGlobal(fmt.Sprintf("(forall ((r Int)) (! (=> (and (<= 0 r) (< r %s)) %s) :pattern ((select %s r))))", a, w, c))
+		}
+	case 2:
+		if w := u.wfVal("(select (select "+c+" r) k)", hi.elemTy, a); w != "true" {
+			u.assumeGlobal(fmt.Sprintf("(forall ((r Int) (k %s)) (! (=> (and (<= 0 r) (< r %s)) %s) :pattern ((select (select %s r) k))))", hi.keySort, a, w, c))
+		}
+	}
 }
 
 func (u *Unit) mapStore(st *State, mt *types.Map, m, k, v string) {
@@ -1689,8 +1908,7 @@ func (fr *Frame) execConvert(st *State, x *ssa.Convert) {
 		sl := u.define("bytes", sSlice, sx("mkslice", r, "0", sx("slen", v.T), sx("slen", v.T)))
 		fr.vals[x] = Val{sl, x.Type(), ""}
 		// contents: element i of the fresh array equals character i
-		es := sInt
-		hn, hs := "E_"+sortTag(es), "(Array Int (Array Int Int))"
+		hn, hs := u.elemHeapName(types.Typ[types.Uint8]), "(Array Int (Array Int Int))"
 		arr := u.fresh("bytes_arr", "(Array Int Int)")
 		u.assumeGlobal(fmt.Sprintf("(forall ((i Int)) (! (=> (and (<= 0 i) (< i (slen %s))) (= (select %s i) (sat %s i))) :pattern ((select %s i))))", v.T, arr, v.T, arr))
 		u.hset(st, hn, hs, store(u.hget(st, hn, hs), r, arr))
@@ -1698,9 +1916,9 @@ func (fr *Frame) execConvert(st *State, x *ssa.Convert) {
 	case fs == sSlice && ts == sStr: // string(bytes)
 		s := u.fresh("str_of_bytes", sStr)
 		u.assume(st, eq(sx("slen", s), sx("s_len", v.T)))
-		hn, hs := "E_Int", "(Array Int (Array Int Int))"
+		hn, hs := u.elemHeapName(types.Typ[types.Uint8]), "(Array Int (Array Int Int))"
 		h := u.hget(st, hn, hs)
-		u.assumeGlobal(fmt.Sprintf("(forall ((i Int)) (! (=> (and (<= 0 i) (< i (slen %s))) (= (sat %s i) (select (select %s (s_arr %s)) (+ (s_off %s) i)))) :pattern ((sat %s i))))", s, s, h, v.T, v.T, s))
+		u.assumeGlobal(fmt.Sprintf("(forall ((i Int)) (! (=> (and (<= 0 i) (< i (slen %s))) (= (sat %s i) (select (select %s (s_arr %s)) (sidx %s i)))) :pattern ((sat %s i))))", s, s, h, v.T, v.T, s))
 		fr.vals[x] = Val{s, x.Type(), ""}
 	case fs == sInt && ts == sStr: // string(rune)
 		fr.vals[x] = u.freshVal(st, "runestr", x.Type())
@@ -1890,4 +2108,59 @@ func (fr *Frame) execNext(st *State, x *ssa.Next) {
 	vv := Val{u.define(fr.tag+"_"+x.Name()+"_v", u.sortOf(mt.Elem()), val), tt.At(2).Type(), ""}
 	u.assume(st, u.facts(st, vv.T, mt.Elem()))
 	fr.tuples[x] = []Val{{ok, tt.At(0).Type(), ""}, kv, vv}
+}
+
+// privateAlloc: the address is used only for loads, stores into it, and field selection with the same restriction.
+func privateAlloc(a ssa.Value) bool {
+	refs := a.Referrers()
+	if refs == nil {
+		return false
+	}
+	for _, r := range *refs {
+		switch x := r.(type) {
+		case *ssa.UnOp:
+			if x.Op != token.MUL {
+				return false
+			}
+		case *ssa.Store:
+			if x.Val == a {
+				return false
+			}
+		case *ssa.FieldAddr:
+			if !privateAlloc(x) {
+				return false
+			}
+		case *ssa.DebugRef:
+		default:
+			return false
+		}
+	}
+	return true
+}
+
+// constArray: the array that maps every index to v. Solvers accept (as const ...) only for value terms, so a
+// non-value v (e.g. the constant naming the empty string) gets a named array with a defining axiom.
+func (u *Unit) constArray(ks, vs, v string) string {
+	if isValueTerm(v) {
+		return fmt.Sprintf("((as const (Array %s %s)) %s)", ks, vs, v)
+	}
+	n := "carr_" + hash8(ks+"|"+vs+"|"+v)
+	u.reg.declConst(n, fmt.Sprintf("(Array %s %s)", ks, vs))
+	u.reg.axiom(fmt.Sprintf("(assert (forall ((i %s)) (! (= (select %s i) %s) :pattern ((select %s i)))))", ks, n, v, n))
+	return n
+}
+
+func isValueTerm(v string) bool {
+	if strings.Contains(v, "lit_") || strings.Contains(v, "carr_") {
+		return false
+	}
+	return true
+}
+
+// sidx(s, i): position of element i of slice s in its backing array. An uninterpreted symbol (defined by an axiom) rather
+// than (+ off i), so that quantified invariants over slice elements have matchable triggers.
+func (u *Unit) sidx(s, i string) string {
+	u.reg.declFun("sidx", "Slice Int", sInt)
+	u.reg.axiom("(assert (forall ((s Slice) (i Int)) (! (= (sidx s i) (+ (s_off s) i)) :pattern ((sidx s i)))))")
+	return sx("sidx", s, i)
 }
